@@ -10,6 +10,7 @@
 import EV.Proofs.Issuance
 import EV.Proofs.Json
 import EV.Proofs.JsonText
+import EV.Proofs.IssuanceBridge
 namespace EV.Props.C11
 open EV EV.Codec EV.Issuance
 
@@ -324,5 +325,18 @@ example : EV.Json.canon (.obj [([0x62], .num [0x31]), ([0x61], .obj [([0x64], .n
 /-- `{"a":1}` and ` {\t"a" :\n1 } ` have the same tokens -/
 example : EV.JsonText.lex [0x7b, 0x22, 0x61, 0x22, 0x3a, 0x31, 0x7d]
     = EV.JsonText.lex [0x20, 0x7b, 0x09, 0x22, 0x61, 0x22, 0x20, 0x3a, 0x0a, 0x31, 0x20, 0x7d, 0x20] := by decide
+
+/-! ### the PSET input used here is the projection of the full PSET input of C08/C14 -/
+
+/-- `from_txin`, the per-input part of `extract_tx`, `is_pegin`, `has_issuance` of the full 48-field PSET
+    input model (`EV.PsetInput`, properties C08/C14/C07) agree, under the projection that forgets the
+    fields the issuance derivation does not read, with the ones used in this file: `ids_agree` is about
+    the same `from_tx` / `extract_tx` as C08's `extract_from_tx`. -/
+theorem pset_input_is_projection_of_full_model (H : Hashes) (t : TxIn) :
+    EV.Proofs.IssuanceBridge.proj (PsetInput.fromTxIn t) = IssPsetInput.fromTxin t ∧
+    (PsetInput.fromTxIn t).toTxIn = (IssPsetInput.fromTxin t).extractIn ∧
+    (EV.Proofs.IssuanceBridge.proj (PsetInput.fromTxIn t)).issuanceIds H = (IssPsetInput.fromTxin t).issuanceIds H :=
+  ⟨EV.Proofs.IssuanceBridge.fromTxin_proj t, (EV.Proofs.IssuanceBridge.ids_of_full_model H t).2,
+   (EV.Proofs.IssuanceBridge.ids_of_full_model H t).1⟩
 
 end EV.Props.C11
